@@ -8,6 +8,11 @@ From C05 Require Import Gen_ArrayFacts Gen_GuardsArray Gen_IndexOf Gen_Grow Gen_
 From C05 Require IndexOfProofs.
 Import ListNotations.
 Local Open Scope Z_scope.
+(* generated functions are never unfolded by simpl / cbn *)
+Local Arguments ShiftInsert : simpl never.
+Local Arguments GrowCapacity : simpl never.
+Local Arguments Insert_prefix : simpl never.
+Local Arguments pvIndexOf : simpl never.
 
 Inductive act := ANop | ACopyItem | AGrowIf | AInsertCopy | AInsertItem.
 Definition act_of (s : string) : option act :=
@@ -304,3 +309,17 @@ Example stale_item_after_grow_is_wrong :
   cellat 1 (run_macts true 1 0 [Some MIndexOf; Some MGrow; Some MRefreshItems; Some MMoveCreateCond; Some MSetCount] items 1 1 false false true) = Some 7 /\
   cellat 1 (run_macts true 1 0 [Some MIndexOf; Some MRefreshItems; Some MGrow; Some MMoveCreateCond; Some MSetCount] items 1 1 false false true) = Some poison.
 Proof. vm_compute. split; reflexivity. Qed.
+
+(* ================================================================== the old storage is alive while a creator runs *)
+(* Array::Data::Reset(capacity, count, itemsCreator), external branch: allocate, run the creator on the NEW storage, only then release the old
+   storage and switch mItems / mCount / mCapacity.  The creators: pvGrow / Shrink only relocate; SetCountCrt first constructs the new items (from
+   `item`, which may refer into the old, still intact storage) and then relocates the old ones.  This is why the hand model's growth paths
+   (array_set_count, array_add_back's generic path, regrow) may read the argument before replacing the cells. *)
+Lemma facts_shape_reset :
+  data_reset_stmts =
+    ["assert((count <= capacity))"; "pvCheckCapacity(capacity)";
+     "if (capacity > internalCapacity) { decl items = pvAllocate(capacity); try { operator()(forward(itemsCreator), items) }; pvDeallocate(); (mItems = items); (mCount = count); (mCapacity = capacity) } else { pvReset(count, forward(itemsCreator)) }"]%string /\
+  pv_grow_lambda = ["Relocate(GetMemManager(), GetItems(), newItems, count)"]%string /\
+  set_count_crt_lambdas =
+    ["decl index = initCount; try { for (; (index < newCount); ++index) { operator()(itemMultiCreator, (newItems + index)) }; Relocate(GetMemManager(), GetItems(), newItems, initCount) }"]%string.
+Proof. repeat split; reflexivity. Qed.
